@@ -162,6 +162,7 @@ type c16Data struct {
 	ClientErrors bool `json:"client_errors"`
 	DirectOnly   bool `json:"direct_only,omitempty"`
 	SlowClient   bool `json:"slow_client,omitempty"`
+	Reapplied    bool `json:"second_configuration,omitempty"`
 	stalls       int
 	MaxBuf       int        `json:"max_buffer_size"`
 	WaitMs       int64      `json:"max_wait_time"`
@@ -216,9 +217,37 @@ func c16Body(configured bool) func(rc *RunCtx) {
 			d.WaitMs = []int64{200, 20, 50, 2000, 5000}[simrt.Choose(5)]
 			d.ZipMin = []int{100, 0, 1, 150, 2000, 10240}[simrt.Choose(6)]
 			d.QueueSize = []int{1000, 1, 3, 10}[simrt.Choose(4)]
-			inst.ApplyConfig(&stubConf{m: map[string]string{
-				"max_buffer_size": strconv.Itoa(d.MaxBuf), "max_wait_time": strconv.FormatInt(d.WaitMs, 10),
-				"logsink_zip_min_size": strconv.Itoa(d.ZipMin), "logsink_queue_size": strconv.Itoa(d.QueueSize)}})
+			if simrt.Chance(1, 3) {
+				// an earlier configuration with other values was in force first; the one applied
+				// now may not mention every setting, and a setting it does not mention is back at
+				// its built-in default (64 KiB, 5 s, 100 bytes, 1000)
+				inst.ApplyConfig(&stubConf{m: map[string]string{"max_buffer_size": "777", "max_wait_time": "70", "logsink_zip_min_size": "33", "logsink_queue_size": "2"}})
+				simrt.Settle(int64(5200 * time.Millisecond))
+				d.Reapplied = true
+			}
+			m := map[string]string{}
+			keep := func() bool { return !d.Reapplied || !simrt.Chance(1, 3) }
+			if keep() {
+				m["max_buffer_size"] = strconv.Itoa(d.MaxBuf)
+			} else {
+				d.MaxBuf = 64 * 1024
+			}
+			if keep() {
+				m["max_wait_time"] = strconv.FormatInt(d.WaitMs, 10)
+			} else {
+				d.WaitMs = 5000
+			}
+			if keep() {
+				m["logsink_zip_min_size"] = strconv.Itoa(d.ZipMin)
+			} else {
+				d.ZipMin = 100
+			}
+			if keep() {
+				m["logsink_queue_size"] = strconv.Itoa(d.QueueSize)
+			} else {
+				d.QueueSize = 1000
+			}
+			inst.ApplyConfig(&stubConf{m: m})
 			// the background loop was started by GetInstance with the previous waiting time;
 			// let that in-flight poll expire so that the settings just applied are "in force"
 			simrt.Settle(int64(5200 * time.Millisecond))
